@@ -500,7 +500,9 @@ func (mo *monitor) observe(c *raftsim.Cluster, op string, res raftsim.Result) {
 	// --- C03: at most one leader per term
 	if st.Role == 3 {
 		if l, ok := mo.leaderOfTerm[st.Term]; ok && l != n.ID {
-			mo.v("C03", "two leaders in term %d: replicas %d and %d", st.Term, l, n.ID)
+			for _, tag := range []string{"C03", "C02"} {
+				mo.v(tag, "two leaders in term %d: replicas %d and %d", st.Term, l, n.ID)
+			}
 		} else if !ok {
 			mo.leaderOfTerm[st.Term] = n.ID
 			mo.elections++
@@ -664,7 +666,10 @@ func (mo *monitor) observe(c *raftsim.Cluster, op string, res raftsim.Result) {
 			if m.Type == pb.RequestVoteResp && !m.Reject {
 				k := [2]uint64{n.ID, m.Term}
 				if c0, ok := mo.voteOf[k]; ok && c0 != m.To {
-					mo.v("C03", "replica %d granted its vote in term %d to both %d and %d", n.ID, m.Term, c0, m.To)
+					// C03, and C02: agreement rests on one leader per term
+					for _, tag := range []string{"C03", "C02"} {
+						mo.v(tag, "replica %d granted its vote in term %d to both %d and %d", n.ID, m.Term, c0, m.To)
+					}
 				}
 				mo.voteOf[k] = m.To
 			}
